@@ -395,8 +395,35 @@ pub fn c03_snips() -> Vec<Snip> {
     out.push(fwd("field-of-field", Kind::E("int"), "(FA { b: FB { x: 1 } }.b.nope + 1)", "(FA { b: FB { x: 1 } }.b.x + 1)"));
     out.push(fwd("field-assignment", Kind::S, "w := FA { b: FB { x: 1 } }\nw.b = 2", "w := FA { b: FB { x: 1 } }\nw.b = FB { x: 2 }"));
     out.push(fwd("recursive-enum-payload", Kind::E("any"), "(FL.Cons (1, 2))", "(FL.Cons (1, FL.Nil))"));
+    // depth and count: the mismatch sits N levels inside a tuple / list type, at the end of a chain of N accesses on an
+    // untyped parameter, or between two variables that have each been an operand N times before
+    for n in SCALE_LADDER {
+        let nest = |open: &str, close: &str, core: &str| format!("{}{}{}", open.repeat(n), core, close.repeat(n));
+        out.push(Snip::owned(format!("deep:{}:annotated-tuple", n), Kind::S, format!("w: {} : {}", nest("(", ",)", "int"), nest("(", ",)", "\"s\"")), format!("w: {} : {}", nest("(", ",)", "int"), nest("(", ",)", "1"))));
+        out.push(Snip::owned(format!("deep:{}:annotated-list", n), Kind::S, format!("w: {} : {}", nest("[", "]", "int"), nest("[", "]", "\"s\"")), format!("w: {} : {}", nest("[", "]", "int"), nest("[", "]", "1"))));
+        out.push(Snip::owned(format!("deep:{}:tuples-compared", n), Kind::S, format!("print({} == {})", nest("(", ",)", "1"), nest("(", ",)", "\"s\"")), format!("print({} == {})", nest("(", ",)", "1"), nest("(", ",)", "2"))));
+        let idx = "[0]".repeat(n);
+        out.push(Snip::owned(
+            format!("deep:{}:index-chain-on-untyped-parameter", n),
+            Kind::S,
+            format!("hh :: fn a ->\n a{} + 1\n end\nprint(hh({}))", idx, nest("(", ", 2)", "\"s\"")),
+            format!("hh :: fn a ->\n a{} + 1\n end\nprint(hh({}))", idx, nest("(", ", 2)", "5")),
+        ));
+        if n <= 40 {
+            let uses: String = (0..n).map(|i| format!("ta += tot * {}\ntc = tc + (lin + \"{}\")\n", i + 1, i)).collect();
+            out.push(Snip::owned(
+                format!("count:{}:two-variables-used-as-operands-before", n),
+                Kind::S,
+                format!("tot := 3\nlin := \"s\"\nta := 0\ntc := \"\"\n{}print(tot * lin)", uses),
+                format!("tot := 3\nlin := \"s\"\nta := 0\ntc := \"\"\n{}print(tot * ta)", uses),
+            ));
+        }
+    }
     out
 }
+
+/// nesting depths / counts around the usual thresholds
+pub const SCALE_LADDER: [usize; 10] = [2, 8, 9, 16, 17, 18, 32, 33, 34, 65];
 
 pub fn c03_prelude() -> Vec<Top> {
     let mut v = prelude();
@@ -563,6 +590,18 @@ pub fn c04_snips() -> Vec<Snip> {
                 out.push(Snip::owned(format!("captured-{}:{}:{}", dn, un, sn), Kind::S, format!("{}\n{}", dm, f), format!("{}\n{}", dc, t)));
             }
         }
+    }
+    // depth: an impure function where a pure one is declared, N levels inside a tuple / list type
+    for n in SCALE_LADDER {
+        let nest = |open: &str, close: &str, core: &str| format!("{}{}{}", open.repeat(n), core, close.repeat(n));
+        out.push(Snip::owned(format!("deep:{}:impure-for-pu-in-tuple", n), Kind::S, format!("w: {} : {}", nest("(", ",)", "pu int -> int"), nest("(", ",)", "idi")), format!("w: {} : {}", nest("(", ",)", "pu int -> int"), nest("(", ",)", "idp"))));
+        out.push(Snip::owned(format!("deep:{}:impure-for-pu-in-list", n), Kind::S, format!("w: {} : {}", nest("[", "]", "pu int -> int"), nest("[", "]", "idi")), format!("w: {} : {}", nest("[", "]", "pu int -> int"), nest("[", "]", "idp"))));
+        out.push(Snip::owned(
+            format!("deep:{}:impure-passed-for-pu-parameter", n),
+            Kind::S,
+            format!("hh :: fn q: {} do\nend\nhh({})", nest("(", ",)", "pu int -> int"), nest("(", ",)", "idi")),
+            format!("hh :: fn q: {} do\nend\nhh({})", nest("(", ",)", "pu int -> int"), nest("(", ",)", "idp")),
+        ));
     }
     out
 }
@@ -783,6 +822,60 @@ fn no_enclosing_loop_in_same_function(path: &[usize]) -> bool {
 }
 
 /// whole-program faults about the entry point: (id, files, main) with a twin
+/// long chains of declarations that mention each other (each type has a field / payload of the next), written
+/// top-down and bottom-up, with a shape fault right behind the head, two links in, and at the far end
+pub fn long_declaration_cases() -> Vec<(String, Files, Files)> {
+    let mut v = Vec::new();
+    for n in [3usize, 9, 17, 33, 65, 129, 255, 256, 257, 258, 300] {
+        for top_down in [true, false] {
+            for enums in [false, true] {
+                let decl = |i: usize| -> String {
+                    if enums {
+                        if i + 1 == n { format!("T{} :: enum\n    V int,\n    W,\nend\n", i) } else { format!("T{} :: enum\n    V T{},\n    W,\nend\n", i, i + 1) }
+                    } else if i + 1 == n {
+                        format!("T{} :: blob {{\n    v: int,\n}}\n", i)
+                    } else {
+                        format!("T{} :: blob {{\n    next: T{},\n}}\n", i, i + 1)
+                    }
+                };
+                let order: Vec<usize> = if top_down { (0..n).collect() } else { (0..n).rev().collect() };
+                let decls: String = order.iter().map(|i| decl(*i)).collect();
+                let program = |user: &str| one_file(&format!("print: fn *X -> void : external\n{}{}\nstart :: fn do\n    print(1)\nend\n", decls, user));
+                let mut cases: Vec<(String, String, String)> = Vec::new();
+                if enums {
+                    // constructing / matching a variant that does not exist, at the head, two links in, at the end
+                    for k in [0usize, 2.min(n - 1), n - 1] {
+                        cases.push((format!("unknown-variant-constructed-at-{}", k), format!("f :: fn do\n    print(T{}.Nope)\nend", k), format!("f :: fn do\n    print(T{}.W)\nend", k)));
+                        cases.push((
+                            format!("case-lists-unknown-variant-at-{}", k),
+                            format!("f :: fn a: T{} do\n    case a do\n        V q -> print(1) end\n        W -> print(2) end\n        Nope -> print(3) end\n    end\nend", k),
+                            format!("f :: fn a: T{} do\n    case a do\n        V q -> print(1) end\n        W -> print(2) end\n    end\nend", k),
+                        ));
+                        cases.push((
+                            format!("case-without-else-misses-a-variant-at-{}", k),
+                            format!("f :: fn a: T{} do\n    case a do\n        V q -> print(1) end\n    end\nend", k),
+                            format!("f :: fn a: T{} do\n    case a do\n        V q -> print(1) end\n        W -> print(2) end\n    end\nend", k),
+                        ));
+                    }
+                } else {
+                    for hops in [0usize, 1, 2.min(n - 1), n - 1] {
+                        let path = ".next".repeat(hops);
+                        let good = if hops + 1 == n { "v" } else { "next" };
+                        cases.push((format!("absent-field-after-{}-links", hops), format!("f :: fn a: T0 do\n    print(a{}.bogus)\nend", path), format!("f :: fn a: T0 do\n    print(a{}.{})\nend", path, good)));
+                    }
+                    cases.push(("missing-field-in-literal-of-the-last".into(), format!("f :: fn do\n    print(T{} {{ }})\nend", n - 1), format!("f :: fn do\n    print(T{} {{ v: 1 }})\nend", n - 1)));
+                    cases.push(("unknown-field-in-literal-of-the-last".into(), format!("f :: fn do\n    print(T{} {{ v: 1, w: 2 }})\nend", n - 1), format!("f :: fn do\n    print(T{} {{ v: 1 }})\nend", n - 1)));
+                    cases.push(("wrong-blob-for-the-field-of-the-last-but-one".into(), format!("f :: fn do\n    print(T{} {{ next: T{} {{ v: 1 }} }}.next.w)\nend", n - 2, n - 1), format!("f :: fn do\n    print(T{} {{ next: T{} {{ v: 1 }} }}.next.v)\nend", n - 2, n - 1)));
+                }
+                for (id, fault, twin) in cases {
+                    v.push((format!("chain-of-{}-{}-{}:{}", n, if enums { "enums" } else { "blobs" }, if top_down { "top-down" } else { "bottom-up" }, id), program(&fault), program(&twin)));
+                }
+            }
+        }
+    }
+    v
+}
+
 pub fn start_cases() -> Vec<(String, Files, Files)> {
     let ok = "print: fn *X -> void : external\nstart :: fn do\n    print(1)\nend\n".to_string();
     let mut v = Vec::new();
@@ -826,7 +919,7 @@ pub fn run_c05(run: &mut Run) {
         v
     });
     // entry-point rules: whole programs
-    for (id, files, twin) in start_cases() {
+    for (id, files, twin) in start_cases().into_iter().chain(long_declaration_cases()) {
         run.stats.evaluations += 2;
         let fo = compile(&files, MAIN, true);
         let to = compile(&twin, MAIN, true);
@@ -846,7 +939,7 @@ pub fn run_c05(run: &mut Run) {
                 }
             }
         };
-        run.stats.outcome(&format!("start-rule:{}", if fail.is_some() { "FAIL" } else { "rejected" }));
+        run.stats.outcome(&format!("{}:{}", if id.starts_with("chain-of-") { "long-declaration-chain" } else { "start-rule" }, if fail.is_some() { "FAIL" } else { "rejected" }));
         if let Some((sig, detail)) = fail {
             let mut fm = serde_json::Map::new();
             for (k, v) in &files {
@@ -860,7 +953,7 @@ pub fn run_c05(run: &mut Run) {
         }
     }
     crate::engines::stdfaults::run_std(&mut run.stats, crate::engines::stdfaults::C05_STD, false, "faults");
-    run.rule = "20 shape faults on values handed out by the standard library (payloads of pop / get / last / find / dict.get, callback parameters of map / filter / fold, the library's Maybe) x 7 contexts with std bundled; every blob declaration with a non-empty field set over {a,b,c} and every enum with a non-empty variant set over {A,B,C}, plain and generic, x every shape fault (missing/unknown/absent field, unknown/unmatched/extra variant, tuple index and length, externblob instance, break/continue outside a loop of the same function) x every composition of statement contexts up to the depth bound x every placement, plus the entry-point rules as whole programs; counted only if the permitted twin compiles; distinct by program text".into();
+    run.rule = "20 shape faults on values handed out by the standard library (payloads of pop / get / last / find / dict.get, callback parameters of map / filter / fold, the library's Maybe) x 7 contexts with std bundled; every blob declaration with a non-empty field set over {a,b,c} and every enum with a non-empty variant set over {A,B,C}, plain and generic, x every shape fault (missing/unknown/absent field, unknown/unmatched/extra variant, tuple index and length, externblob instance, break/continue outside a loop of the same function) x every composition of statement contexts up to the depth bound x every placement, plus the entry-point rules as whole programs, plus chains of 3 .. 300 blob / enum declarations each mentioning the next (written top-down and bottom-up) with a shape fault at the head, two links in and at the far end; counted only if the permitted twin compiles; distinct by program text".into();
     run.assumptions = vec!["cases whose control does not compile are not counted".into(), "that accepted programs load as Lua is checked by C06 on the same families".into()];
 }
 
